@@ -70,7 +70,11 @@ def _case(draw):
     case["halo"] = draw(gen.halo(case, kinds=("zero", "zero", "cells")) if awkward else gen.halo(case))
     px, py, _ = gen.pad_widths(case, case["halo"]["value"])
     m = draw(gen.modes(case, px, py))
-    case["modes"] = [512, 512] if m is None else m
+    case["modes"] = [512, 512] if m is None else list(m)
+    if m is not None and draw(st.integers(0, 7)) == 0:
+        # an odd count on one axis: the call may refuse it; if it accepts it, the cut-off clause applies as for any count
+        ax = draw(st.integers(0, 1))
+        case["modes"][ax] = max(1, case["modes"][ax] - 1)
     case["footprint"] = draw(st.booleans())
     if draw(st.integers(0, 9)) == 0:
         # a halo that is not a width at all: the call may refuse it, it may not hand back a clipped field
@@ -108,6 +112,45 @@ def _negative_halo(case, out, q0, z, prof, dom, dx, dy):
     return out
 
 
+def _nesting(case, out, q0, z, prof, dom, lv, modes, hv, kw, conc, flx, px, py, nx, ny, dx, dy):
+    one_axis_above = (modes[0] > nx + 2 * px) != (modes[1] > ny + 2 * py)
+    # ---- nesting: fewer modes = ideal low-pass of the full-mode result (halo = 0: whole periodic domain visible)
+    if px == 0 and py == 0 and (modes[0] < nx or modes[1] < ny):
+        big = (nx + nx % 2, ny + ny % 2)
+        try:
+            _, cF, fF = sut.solver()(q0, z, prof, dom, lv, modes=big, halo=hv, **kw)
+        except Exception:
+            return out
+        kxm, kym = tol.max_wavenumbers(nx, ny, dx, dy)
+        rel = tol.rel_tol(tol.log_growth(z, prof, kxm, kym))
+        kx = np.abs(oracles.freq_index(nx))[None, :]
+        ky = np.abs(oracles.freq_index(ny))[:, None]
+        cands = [oracles.effective_modes(modes, nx, ny, False)]
+        if one_axis_above:
+            cands.append(oracles.effective_modes(modes, nx, ny, True))
+        problems = None
+        for eff in cands:
+            inside = oracles.strict_band(ny, eff[1])[:, None] & oracles.strict_band(nx, eff[0])[None, :]
+            outside = (kx > min(eff[0], nx) / 2.0) | (ky > min(eff[1], ny) / 2.0)
+            msgs = []
+            for name, a, b in (("conc", conc, cF), ("flux", flx, fF)):
+                A = np.fft.fft2(a, axes=(1, 2))
+                B = np.fft.fft2(b, axes=(1, 2))
+                scale = tol.maxabs(B)
+                if not tol.maxabs((A - B) * inside) <= rel * scale:
+                    msgs.append(f"{name}: truncation to modes {modes} (effective {eff}) changes components strictly inside the "
+                                f"cut-off by {tol.maxabs((A - B) * inside):.3e} (spectrum max {scale:.3e})")
+                if not tol.maxabs(A * outside) <= rel * scale:
+                    msgs.append(f"{name}: components strictly beyond the cut-off of modes {modes} (effective {eff}) are not "
+                                f"removed ({tol.maxabs(A * outside):.3e})")
+            if problems is None or len(msgs) < len(problems):
+                problems = msgs
+        for m in problems:
+            out.bad(m)
+        out.label("nesting-checked")
+    return out
+
+
 def check_case(case):
     out = Outcome()
     z, prof = gen.build_profiles(case["prof"])
@@ -139,6 +182,9 @@ def check_case(case):
         return out
     X, Y, Z = grid
     shape = (2, ny, nx)
+    odd_modes = bool(modes[0] % 2 or modes[1] % 2)
+    if odd_modes:
+        out.label("odd-mode-count-accepted")
     for name, a in (("conc", conc), ("flx", flx), ("X", X), ("Y", Y), ("Z", Z)):
         if np.shape(a) != shape:
             out.bad(f"{name} has shape {np.shape(a)}, the source grid is {shape[1:]} "
@@ -149,6 +195,8 @@ def check_case(case):
             and tol.maxabs(Y[0] - (np.arange(ny) * dy)[:, None]) <= 1e-12 * dom[1]):
         out.bad("returned coordinates are not x = i*dx, y = j*dy")
 
+    if odd_modes:
+        return _nesting(case, out, q0, z, prof, dom, lv, modes, hv, kw, conc, flx, px, py, nx, ny, dx, dy)
     # ---- level-0 registration against an independent low-pass reference
     def widths(w, d):
         r = h / d
@@ -206,38 +254,4 @@ def check_case(case):
                 if not e <= 1e-12 * max(tol.maxabs(conc), tol.maxabs(flx)):
                     out.bad(f"modes {modes} (> padded {nxe}x{nye}) differ from modes {even} by {e:.3e}")
 
-    # ---- nesting: fewer modes = ideal low-pass of the full-mode result (halo = 0: whole periodic domain visible)
-    if px == 0 and py == 0 and (modes[0] < nx or modes[1] < ny):
-        big = (nx + nx % 2, ny + ny % 2)
-        try:
-            _, cF, fF = sut.solver()(q0, z, prof, dom, lv, modes=big, halo=hv, **kw)
-        except Exception:
-            return out
-        kxm, kym = tol.max_wavenumbers(nx, ny, dx, dy)
-        rel = tol.rel_tol(tol.log_growth(z, prof, kxm, kym))
-        kx = np.abs(oracles.freq_index(nx))[None, :]
-        ky = np.abs(oracles.freq_index(ny))[:, None]
-        cands = [oracles.effective_modes(modes, nx, ny, False)]
-        if one_axis_above:
-            cands.append(oracles.effective_modes(modes, nx, ny, True))
-        problems = None
-        for eff in cands:
-            inside = oracles.strict_band(ny, eff[1])[:, None] & oracles.strict_band(nx, eff[0])[None, :]
-            outside = (kx > min(eff[0], nx) / 2.0) | (ky > min(eff[1], ny) / 2.0)
-            msgs = []
-            for name, a, b in (("conc", conc, cF), ("flux", flx, fF)):
-                A = np.fft.fft2(a, axes=(1, 2))
-                B = np.fft.fft2(b, axes=(1, 2))
-                scale = tol.maxabs(B)
-                if not tol.maxabs((A - B) * inside) <= rel * scale:
-                    msgs.append(f"{name}: truncation to modes {modes} (effective {eff}) changes components strictly inside the "
-                                f"cut-off by {tol.maxabs((A - B) * inside):.3e} (spectrum max {scale:.3e})")
-                if not tol.maxabs(A * outside) <= rel * scale:
-                    msgs.append(f"{name}: components strictly beyond the cut-off of modes {modes} (effective {eff}) are not "
-                                f"removed ({tol.maxabs(A * outside):.3e})")
-            if problems is None or len(msgs) < len(problems):
-                problems = msgs
-        for m in problems:
-            out.bad(m)
-        out.label("nesting-checked")
-    return out
+    return _nesting(case, out, q0, z, prof, dom, lv, modes, hv, kw, conc, flx, px, py, nx, ny, dx, dy)
